@@ -169,6 +169,16 @@ def work(shard, tier):
                 nontriv += 1
             if i < 2:
                 samples.append({'s': s, 'deletechars': d, 'clean': clean(s, d)})
+        # characters that attach to the one before them (keycap, variation selectors, joiners, combining marks): the
+        # clean-up works character by character, whatever stands next to it
+        attach = ['\ufe0f\u20e3', '\u20e3', '\ufe0f', '\ufe0e', '\u200d', '\u0301', '\u0338', '\u3099', '\U000e0031', '\u061c']
+        for base_ch in list('0123456789') + ['A', 'z', '-', ' ', '#', '*', '\uff11', '\u2013']:
+            for att in attach:
+                for s2 in (base_ch + att, base_ch + att + '3', '7' + base_ch + att, att + base_ch, base_ch + att + att):
+                    for d2 in ('', ' -', att[:1]):
+                        check_string(clean, s2, d2, viols, table)
+                        evals += 2
+                        nontriv += 1
         counters['string_cases'] = n
     else:
         mods = C.number_modules()
